@@ -286,8 +286,10 @@ func goid() int64 {
 }
 
 var watch = struct {
-	first, step, max time.Duration
-}{5 * time.Second, time.Second, 180 * time.Second}
+	first, after, step, max time.Duration
+}{5 * time.Second, 300 * time.Millisecond, time.Second, 180 * time.Second}
+
+var hangs atomic.Int64
 
 // blockedInACME inspects a full goroutine dump: is goroutine id parked in a select /
 // channel receive inside package acme? It returns the acme function.
@@ -334,12 +336,20 @@ func (e *env) execute() {
 			_, pan, stack = vf.Protect(func() { res = op.run(e, ctx) })
 		}()
 		hung := ""
-		first := time.NewTimer(watch.first)
+		if hangs.Load() > 40 {
+			e.c.Capped("more than 40 executions hung after a cancellation: remaining executions skipped")
+			return
+		}
+		wf := watch.first
+		if hangs.Load() > 0 {
+			wf = watch.after // a hang was already confirmed once: do not spend 5 s on each further one
+		}
+		first := time.NewTimer(wf)
 		select {
 		case <-done:
 			first.Stop()
 		case <-first.C:
-			waited := watch.first
+			waited := wf
 		poll:
 			for {
 				if fn := blockedInACME(e.gid.Load()); fn != "" && ctx.Err() != nil {
@@ -366,6 +376,7 @@ func (e *env) execute() {
 			return
 		}
 		if hung != "" {
+			hangs.Add(1)
 			e.violation("call stays blocked in "+hung+" after its context was cancelled", op, nil)
 			return
 		}
@@ -894,6 +905,9 @@ func run(c *vf.Ctx) {
 			}
 			add(kid, 1, single, o)
 			add(kid, 3, 2, o)
+			if c.Thorough && kid {
+				add(kid, 2, 3, o) // fail, fail, fail -> RetryBackoff(3) stops the third retry
+			}
 		}
 	}
 	// two calls on one client: the nonce pool, the directory and the key id carry over
